@@ -294,7 +294,7 @@ fn attribute_result_set_difference(p: &Program, outcome: &str, found_by: &Trace)
     let i = found_by.outcomes.iter().position(|o| o == outcome)?;
     let h = found_by.histories.get(i)?;
     let may = MachineCfg::may();
-    if crate::oracle::replay_may(p, h, &may, false).is_err() {
+    if crate::cases::k3_applicable(p) && crate::oracle::replay_may(p, h, &may, false).is_err() {
         let mut dev = may.clone();
         dev.dev = crate::graph::Deviation { at_ignores_plain_stores: true };
         if crate::oracle::replay_may(p, h, &dev, false).map(|a| !a.results.is_empty()).unwrap_or(false) {
@@ -741,7 +741,7 @@ pub fn run_c19_case(p: &Program, cfg: &Config, rng: &mut crate::rng::Rng) -> Cas
             if let Err(e) = crate::oracle::replay_may(&q, h, &may, false) {
                 let mut dev = MachineCfg::may();
                 dev.dev = crate::graph::Deviation { at_ignores_plain_stores: true };
-                if crate::oracle::replay_may(&q, h, &dev, false).map(|a| !a.results.is_empty()).unwrap_or(false) {
+                if crate::cases::k3_applicable(&q) && crate::oracle::replay_may(&q, h, &dev, false).map(|a| !a.results.is_empty()).unwrap_or(false) {
                     continue; // K3, reported by C03
                 }
                 rep.violations.push(viol("controls", format!("iteration {} under exploration controls is not a valid execution: {}", k + 1, e), json!({"program": q.text(), "history": history_text(h)})));
